@@ -5,6 +5,8 @@ pub open spec fn wf(l: NodeLabel) -> bool { l.label_len <= 256 }
 pub open spec fn canon(l: NodeLabel) -> bool {
     wf(l) && forall|i: int| l.label_len <= i < 256 ==> !#[trigger] bit(l, i)
 }
+// the root label: length 0, canonical (all bits clear) - the only such label (lemma_root_unique)
+pub open spec fn is_root(l: NodeLabel) -> bool { l.label_len == 0 && canon(l) }
 // the first n bits agree
 pub open spec fn agree(a: NodeLabel, b: NodeLabel, n: int) -> bool {
     forall|i: int| #![trigger bit(a, i)] #![trigger bit(b, i)] 0 <= i < n ==> bit(a, i) == bit(b, i)
@@ -60,6 +62,12 @@ pub open spec fn is_prefix_n(r: NodeLabel, l: NodeLabel, n: int) -> bool {
 
 
 // all bits of a zero byte are zero
+pub proof fn lemma_root_unique(a: NodeLabel, b: NodeLabel)
+    requires is_root(a), is_root(b)
+    ensures a == b
+{
+    lemma_label_ext(a, b);
+}
 pub proof fn lemma_zero_byte()
     ensures forall|r: int| 0 <= r < 8 ==> !#[trigger] byte_bit(0u8, r)
 {
